@@ -26,7 +26,7 @@ type GameCfg struct {
 	Table   int      `json:"table"` // 0 standard ranking, 1 short-deck ranking
 	Hole    int      `json:"hole"`
 	Req     int      `json:"req"`
-	Burn    *int     `json:"burn,omitempty"` // Meta.BurnCount (default 1; the engine burns one card per street whatever it says)
+	Burn    *int     `json:"burn,omitempty"`    // Meta.BurnCount (default 1; the engine burns one card per street whatever it says)
 	Deck    []string `json:"deck,omitempty"`    // configured deck (default: the variant's full deck)
 	Shuffle []string `json:"shuffle,omitempty"` // deck order to play (default: whatever Start() shuffled)
 	Passive bool     `json:"passive,omitempty"` // play the hand to the river without folds or all-ins
@@ -359,16 +359,16 @@ func opCmd(kind string, op GameOp) string {
 
 // ---------- the hand driver ----------
 type hand struct {
-	o      *Out
-	cfg    GameCfg
-	g      pf.Game
-	ops    []GameOp
-	twin   *pf.GameState
-	nb     *table.NativeBackend
-	mon    roundMonitor
-	probeP float64
-	rng    *rand.Rand
-	flags  map[string]bool
+	o       *Out
+	cfg     GameCfg
+	g       pf.Game
+	ops     []GameOp
+	twin    *pf.GameState
+	nb      *table.NativeBackend
+	mon     roundMonitor
+	probeP  float64
+	rng     *rand.Rand
+	flags   map[string]bool
 	startCW int64
 }
 
@@ -589,6 +589,13 @@ func genCfg(rng *rand.Rand, i int) GameCfg {
 		c.Hole, c.Req = 4, 2
 	} else if rng.Intn(8) == 0 {
 		c.Hole, c.Req = 2, 2 // both hole cards must play
+	}
+	// now and then a table beyond the usual ring: the engine takes as many seats as the deck can serve
+	if rng.Intn(16) == 0 {
+		n = 10 + rng.Intn(13)
+		if c.Hole*n+8 > 52 {
+			n = (52 - 8) / c.Hole
+		}
 	}
 	c.Short = rng.Intn(4) == 0
 	if c.Short && c.Hole*n+8 > 36 {
@@ -839,6 +846,16 @@ func exactFitHands(o *Out, rng *rand.Rand) int {
 		c.Deck = full[:sh.n*sh.hole+8]
 		playRandomHand(o, rng, c, 0.1)
 		cases++
+		// the same table with a burn count other than one in the options: one card is burned per street
+		// whatever the option says, and the deck that fits exactly still does
+		for _, b := range []int{0, 2, 3} {
+			c2 := c
+			bb := b
+			c2.Burn = &bb
+			// own random source: the hands that follow stay the ones they were before these were added
+			playRandomHand(o, rand.New(rand.NewSource(int64(1000*sh.n+10*sh.hole+b))), c2, 0.1)
+			cases++
+		}
 	}
 	return cases
 }
